@@ -8,6 +8,7 @@
 
 #include <cstdint>
 #include <cstring>
+#include <limits>
 #include <stdexcept>
 #include <string>
 
@@ -83,6 +84,13 @@ namespace osmium { namespace io { namespace detail {
         if (length >= osmium::max_osm_string_length) {   // string-length-bound-agrees: rejects a string of exactly the maximum length
             throw std::length_error{str};
         }
+    }
+
+    inline uint32_t c01_positive_narrow(int64_t value) {
+        if (value < 0 || value >= std::numeric_limits<uint32_t>::max()) {   // value-range-bound-agrees: rejects 2^32-1 itself
+            throw std::range_error{"out of range"};
+        }
+        return static_cast<uint32_t>(value);
     }
 
     class XMLParser {
